@@ -27,7 +27,9 @@ PAIRS: List[tuple] = [
     # filter context at depth 1 and 2
     ("$[?@.a == _.k]", None, "ctx-eq", "objarr", {"leaf": "nbi", "ckleaf": "nbi"}), ("$.b[?@ == _.a[1]]", "$.b[?@ == 1]", None, "nest1", {}),
     ("$.*[?@.a == _.o.a]", "$.*[?@.a == 1]", None, "deep", {}), ("$[?@.a[?@ == _.a[1]]]", "$[?@.a[?@ == 1]]", None, "nest1", {}),
-    ("$[?@[?@.a == _.o.a]]", "$[?@[?@.a == 1]]", None, "deep", {}), ("$[?count(_.a.*) == 2 && @.a]", "$[?@.a]", None, "objarr", {}),
+    ("$[?@[?@.a == _.o.a]]", "$[?@[?@.a == 1]]", None, "deep", {}),
+    ("$[?$[?@.a == _.o.a]]", "$[?$[?@.a == 1]]", None, "objarr", {}), ("$[?_.a[?@ == _.o.a]]", "$[?@ || !@]", None, "arr", {"leaf": "int"}),
+    ("$[?_.a[?@ == $[0]]]", "$[?$[0] == 1 || $[0] == _.k]", None, "arr", {"leaf": "int"}), ("$.a[?$.b[?@ == _.o.a]]", "$.a[?$.b[?@ == 1]]", None, "nest1", {}), ("$[?count(_.a.*) == 2 && @.a]", "$[?@.a]", None, "objarr", {}),
     # membership
     ("$[?@.a in [1, 'a', true, null]]", "$[?@.a == 1 || @.a == 'a' || @.a == true || @.a == null]", None, "objarr", {}),
     ("$[?[1, 'a'] contains @.a]", "$[?@.a == 1 || @.a == 'a']", None, "objarr", {}), ("$[?@.a in _.s]", "$[?@.a in 'abc']", None, "objarr", {"strs": S}),
